@@ -158,6 +158,9 @@ type client struct {
 	connM sync.Mutex
 	conn  net.Conn
 
+	// writeM serializes writing of requests to conn
+	writeM sync.Mutex
+
 	// Address of the RegionServer.
 	addr  string
 	ctype ClientType
@@ -647,12 +650,18 @@ func (c *client) send(rpc hrpc.Call) (uint32, error) {
 	}
 
 	rpcSize.WithLabelValues(c.Addr()).Observe(float64(uint32(len(b)) + cellblocksLen))
+	// send can be called concurrently (batching goroutine and callers of
+	// QueueRPC for unbatched rpcs). Only *net.TCPConn turns net.Buffers
+	// into a single atomic writev; on any other net.Conn (custom dialer)
+	// it's one Write per buffer, so serialize the whole request.
+	c.writeM.Lock()
 	if cellblocks != nil {
 		bfs := append(net.Buffers{b}, cellblocks...)
 		_, err = bfs.WriteTo(c.conn)
 	} else {
 		err = c.write(b)
 	}
+	c.writeM.Unlock()
 	if err != nil {
 		return id, ServerError{err}
 	}
